@@ -23,6 +23,7 @@ ASSUMPTIONS = [
 ]
 REQUIRE_VAC = ["populations", "laws", "paths_with_q_below_1", "boundary_populations_mean_eq_t"]
 TOL = 1e-9
+MUTATED = {}
 
 
 def bounds(tier):
@@ -143,6 +144,8 @@ def judge_one(cfg, getobs, kind, spec):
         dist, total = dist_law(cfg, getobs, spec[0], spec[1])
     r, a, P = worst(dist, total)
     out = []
+    if MUTATED.get("flag"):
+        out.append((f"C01|{mk}|input-mutated", f"{mk}: test() changes the sample array it is given; an auditor who re-evaluates the growing sample then feeds it altered draws (risk not controlled)"))
     if r > 1 + TOL:
         sub = "p-nonpositive-under-null" if (a is not None and a <= 0) else "risk-exceeds-alpha"
         out.append((f"C01|{mk}|{'finite-N' if kind == 'pop' else 'iid'}|{sub}",
@@ -155,6 +158,7 @@ def run_cfg(sh, rec):
     cfg, D = sh
     trie = s1.build_trie(cfg, rec)
     getobs = trie.__getitem__
+    MUTATED["flag"] = any(o.get("mutated") for o in trie.values())
     g = s1.grid(cfg)
     worst_ratio = 0.0
     items = []
@@ -194,9 +198,12 @@ def run_case(case):
     g = s1.grid(cfg)
     memo = {}
 
+    MUTATED["flag"] = False
+
     def getobs(idx):
         if idx not in memo:
             memo[idx] = s1.observe(cfg, [g[i] for i in idx])
+            MUTATED["flag"] = MUTATED["flag"] or memo[idx].get("mutated")
         return memo[idx]
 
     return judge_one(cfg, getobs, case["kind"], case["spec"])[0]
